@@ -75,6 +75,62 @@ def _profile1(fn_node: ast.AST) -> List[List]:
     return rows
 
 
+def _loop_depth_of_calls(fn_node: ast.AST):
+    """(call, inside a loop / comprehension of this function?) for every call in the function, closures included"""
+    out = []
+
+    def rec(n, in_loop):
+        for ch in ast.iter_child_nodes(n):
+            if isinstance(ch, ast.ClassDef):
+                continue
+            il = in_loop or isinstance(ch, (ast.For, ast.While, ast.AsyncFor, ast.ListComp, ast.SetComp, ast.DictComp, ast.GeneratorExp))
+            if isinstance(ch, ast.Call):
+                out.append((ch, il))
+            rec(ch, il)
+
+    rec(fn_node, False)
+    return out
+
+
+_BASE = None
+
+
+def _is_new(fn: Func) -> bool:
+    """not part of the reference inventory (a helper some later change introduced)"""
+    global _BASE
+    if _BASE is None:
+        from ..inline import load_baseline
+
+        _BASE = load_baseline()
+    mod = _BASE.get(fn.module.name)
+    return mod is not None and fn.qual not in mod
+
+
+def unit_profile(prog, fn: Func, _seen=None) -> List[List]:
+    """The function's own swallow profile plus that of the *new* helpers it calls (a helper extracted from the function
+    keeps belonging to it; called from inside a loop its handlers are per-iteration ones)."""
+    _seen = () if _seen is None else _seen
+    if fn.fq in _seen or len(_seen) > 6:
+        return []
+    _seen = _seen + (fn.fq,)  # recursion guard only: a helper called at two sites counts twice
+    rows = [list(r) for r in profile(fn.node)]
+    for c, in_loop in _loop_depth_of_calls(fn.node):
+        tgt = None
+        f = c.func
+        if isinstance(f, ast.Name):
+            ent = prog.lookup_name(fn, f.id)
+            if isinstance(ent, Func):
+                tgt = ent
+        elif isinstance(f, ast.Attribute) and isinstance(f.value, ast.Name) and f.value.id in ("self", "cls") and fn.cls is not None:
+            tgt = prog.find_method(fn.cls, f.attr)
+        if tgt is None or not _is_new(tgt) or ".<locals>" in tgt.qual:
+            continue
+        for t, k in unit_profile(prog, tgt, _seen):
+            rows.append([t, "loop" if in_loop else k])
+    rows.sort()
+    return rows
+
+
 def all_funcs_rec(prog) -> Iterable[Func]:
     def rec(f):
         yield f
@@ -97,10 +153,10 @@ def check(ck: Checker, rule: str) -> int:
     n = 0
     for fq in sorted({q.split(".<locals>")[0] for q in ck.funcs_analysed}):
         fn = by_fq.get(fq)
-        if fn is None:
-            continue
+        if fn is None or _is_new(fn):
+            continue  # a new helper is judged together with the functions that call it
         want = table.get(fq, [])
-        got = profile(fn.node)
+        got = unit_profile(ck.prog, fn)
         n += 1
 
         def fmt(rows):
